@@ -43,6 +43,8 @@ class CallMixin:
         if isinstance(f, Closure):
             return self.call_closure(f, args, kwargs)
         if isinstance(f, types.FunctionType):
+            if f.__module__ == "copy" and f.__name__ == "copy":
+                return self.call_builtin(f, args, kwargs)       # standard-library model, see call_builtin
             return self.call_function(f, args, kwargs)
         if isinstance(f, type):
             return self.instantiate(f, args, kwargs)
@@ -323,7 +325,9 @@ class CallMixin:
         for e in exprs:
             try:
                 v = self.truth(self.eval_spec(e, fr))
-            except PyExc:
+            except PyExc as ex:
+                if ex.cls is NameError:
+                    raise Undecided("assumed clause refers to a name the function does not define (sidecar out of date?): " + e)
                 raise PathEnd()
             if v is True:
                 continue
@@ -339,6 +343,11 @@ class CallMixin:
             try:
                 v = self.truth(self.eval_spec(e, fr))
             except PyExc as ex:
+                if ex.cls is NameError:
+                    # the sidecar text names a local/attribute the code no longer has (e.g. a renamed accumulator):
+                    # the contract is out of date, which says nothing about the property
+                    self.report(name, "unknown", e, note="contract expression refers to a name the function does not define (sidecar out of date?)")
+                    continue
                 self.report(name, "fail", e, note="contract expression raises %s" % ex.cls.__name__)
                 continue
             self.prove(name, v, e)
@@ -431,6 +440,19 @@ class CallMixin:
                 return self.import_value(f(*args, **kwargs))
             except Exception as e:      # the library's own error for these arguments
                 raise PyExc(type(e))
+        # copy.copy: shallow copy of an instance without __copy__ (same class, same attribute values), of a list, or of a value
+        if mod == "copy" and name == "copy" and len(args) == 1 and not kwargs:
+            a = args[0]
+            if isinstance(a, Ref):
+                o = self.p.deref(a)
+                if isinstance(o, HObj) and inspect.getattr_static(o.cls, "__copy__", None) is None \
+                        and inspect.getattr_static(o.cls, "__reduce_ex__", None) is object.__reduce_ex__ \
+                        and inspect.getattr_static(o.cls, "__slots__", None) is None:
+                    return self.p.alloc(HObj(o.cls, dict(o.fields)))
+                if isinstance(o, HList) and o.pre is None:
+                    return self.p.alloc(HList(list(o.items)))
+                raise Undecided("copy.copy of %s" % type(o).__name__)
+            return a
         # hashlib / hmac
         if name and name.startswith("openssl_"):
             alg = name[len("openssl_"):]
